@@ -3,7 +3,8 @@
 
   What is modelled: `NewSubscriptionID` / `Unwrap` / the accessors on byte strings (with `%d` and
   `strconv.ParseInt(·,10,8)` written out), `SubscribeTo` / `UnSubscribeFrom` / `GetSubscribers` on a flat association
-  list, histories of subscribe / unsubscribe / deliver. A delivery is "send to every channel GetSubscribers returns"
+  list, histories of subscribe / unsubscribe / deliver / CloseSession (a delivery has no size in the model: messages of
+  every size are run through the real stream reader by the harness and must reach the same channels). A delivery is "send to every channel GetSubscribers returns"
   (the goroutine fan-out of ProcessMessagesFromStream is tied by the correspondence runs, not modelled).
   Hypotheses of `refines` (all decidable, see `wf` = `wfIn` ∧ `fresh`): message types are the declared ones
   (≤ Unknown = 13) and only ids handed out by Subscribe are cancelled — properties of the INPUT (`wfIn`); and the
@@ -328,6 +329,19 @@ theorem sim_step (r : Run) (sr : SRun) (issued : List (Str × Nat × Nat)) (gs :
       simp only [List.filter_map, List.map_map]
       rfl
 
+  | close s =>
+    simp only [wfFrom] at hw
+    refine ⟨issued, gs, ?_, hw⟩
+    constructor
+    · simp [step, h.st]
+    · simp [sstep, h.live]
+    · simp [step, h.ids]
+    · simp [sstep, h.n]
+    · exact h.look
+    · exact h.nodup
+    · exact h.tys
+    · simp [step, sstep, deliveries_append, deliveries, h.out]
+
 theorem sim_fold (ops : List Op) (r : Run) (sr : SRun) (issued : List (Str × Nat × Nat)) (gs : List G)
     (h : Sim r sr issued gs) (hw : wfFrom issued ops = true) :
     ∃ issued' gs', Sim (ops.foldl step r) (ops.foldl sstep sr) issued' gs' := by
@@ -358,6 +372,7 @@ theorem spec_cancelled (k : Nat) (post : List Op) (sr : SRun) (h1 : k < sr.n) (h
         exact h2 (List.mem_map.2 ⟨l, (List.mem_filter.1 hl).1, e⟩)
     | unsubRaw id => exact ih sr h1 h2
     | deliver s t => exact ih _ h1 h2
+    | close s => exact ih sr h1 h2
 
 theorem subscribers_sub (st : St) (s : Str) (t : Nat) : ∀ c ∈ subscribers st s t, c ∈ (retained st).map (·.h) := by
   intro c hc
@@ -456,6 +471,7 @@ theorem wfFrom_split (seen : List (Str × Nat × Nat)) (ops : List Op) :
     | unsub k => simp only [wfFrom, wfIn, freshFrom, ih]
     | unsubRaw id => simp [wfFrom, wfIn]
     | deliver s t => simp only [wfFrom, wfIn, freshFrom, ih]
+    | close s => simp only [wfFrom, wfIn, freshFrom, ih]
 
 /-- **C12 (complete predicate).** For every history of declared types in which only handed-out ids are cancelled: IF
     the identifiers handed out are fresh, the full predicate the driver evaluates holds of the model. Freshness itself
@@ -499,6 +515,19 @@ theorem bucket_size_numbering_point :
     let ops := [Op.sub s 4 0, .sub s 4 1, .unsub 0, .sub s 4 1, .deliver s 4]
     wfIn ops = true ∧ fresh ops = false ∧ deliveries (run ops).out = [[2]] ∧ (srun ops).out = [[1, 2]] := by
   decide
+
+/-! #### CloseSession is not a cancellation; message size is irrelevant -/
+
+/-- closing a session leaves every subscription where it is (it concerns the session's outbound streams only), so by
+    `refines` the subscribers of that session that were never cancelled keep receiving -/
+theorem close_keeps_subscriptions (r : Run) (s : Str) : (step r (.close s)).st = r.st ∧ (step r (.close s)).ids = r.ids :=
+  ⟨rfl, rfl⟩
+
+/-- non-vacuity: A and B subscribe to one session, A cancels and the session is closed, B still receives -/
+example :
+    let s := str "1-2-100-104-0"
+    let ops := [Op.sub s 4 7, .sub s 4 8, .unsub 0, .close s, .deliver s 4]
+    wf ops = true ∧ deliveries (run ops).out = [[1]] ∧ (retained (run ops).st).map (·.h) = [1] := by decide
 
 end Property
 end Sygma.C12
